@@ -827,25 +827,32 @@ impl<T: Copy> Clone for CountClone<T> {
 }
 
 fn run_clos<const M: usize>(bump: &Bump<M>, clos: &Clos) {
+    // the initialiser uses the fallible flavour and simply goes without when the arena
+    // cannot serve it: a panic of the *caller's* closure would not be the arena's doing
     match clos {
         Clos::Nothing => {}
         Clos::Keep(n) => {
             let seed = next_seed();
-            let p = bump.alloc_layout(Layout::from_size_align(*n, 1).unwrap()).as_ptr() as usize;
-            let _g = rec::pause();
-            let bytes: Vec<u8> = (0..*n).map(|i| pat(seed, i)).collect();
-            unsafe { std::ptr::copy_nonoverlapping(bytes.as_ptr(), p as *mut u8, *n) };
-            register(p, *n, 1, bytes);
+            if let Ok(p) = bump.try_alloc_layout(Layout::from_size_align(*n, 1).unwrap()) {
+                let p = p.as_ptr() as usize;
+                let _g = rec::pause();
+                let bytes: Vec<u8> = (0..*n).map(|i| pat(seed, i)).collect();
+                unsafe { std::ptr::copy_nonoverlapping(bytes.as_ptr(), p as *mut u8, *n) };
+                register(p, *n, 1, bytes);
+            }
         }
         Clos::Release(n) => {
             let l = Layout::from_size_align(*n, 1).unwrap();
-            let p = bump.alloc_layout(l);
-            unsafe { (&bump).deallocate(p, l) };
+            if let Ok(p) = bump.try_alloc_layout(l) {
+                unsafe { (&bump).deallocate(p, l) };
+            }
         }
         Clos::Zst => {
-            let p = bump.alloc_layout(Layout::from_size_align(0, 1).unwrap()).as_ptr() as usize;
-            let _g = rec::pause();
-            register(p, 0, 1, Vec::new());
+            if let Ok(p) = bump.try_alloc_layout(Layout::from_size_align(0, 1).unwrap()) {
+                let p = p.as_ptr() as usize;
+                let _g = rec::pause();
+                register(p, 0, 1, Vec::new());
+            }
         }
     }
 }
